@@ -502,6 +502,50 @@ fn c05_saturation(c: &mut Case) -> Result<(), String> {
     Ok(())
 }
 
+/// one multi-million k-mer input through CountFilter, compared with an independent count
+fn c05_big(c: &mut Case) -> Result<(), String> {
+    type K = Kmer20;
+    let k = 20;
+    let stranded = c.rng.chance(1, 2);
+    let genome = crate::gen::gen_genome(&c.rng, 400_000 + c.rng.below(200_000), 100, 80);
+    let mut reads = Vec::new();
+    let mut pos = 0;
+    while pos + 50 < genome.len() {
+        let len = 100 + c.rng.below(150);
+        let end = (pos + len).min(genome.len());
+        let r = genome[pos..end].to_vec();
+        reads.push(if c.rng.chance(1, 2) { rc(&r) } else { r });
+        pos += 10 + c.rng.below(30);
+    }
+    let seqs = whole_reads(&reads);
+    let thr = c.rng.range(1, 4);
+    let (rows, all) = lib_count_table::<K>(&seqs, stranded, thr, true);
+    let t = build_table(&seqs, k, stranded);
+    let windows: u64 = reads.iter().map(|r| (r.len() + 1).saturating_sub(k) as u64).sum();
+    let mut n_valid = 0usize;
+    for (ks, row) in &t {
+        if row.obs.len() >= thr {
+            n_valid += 1;
+        }
+        let _ = ks;
+    }
+    ensure!(rows.len() == n_valid, "big case: {} rows, model {}", rows.len(), n_valid);
+    for (key, (e, cnt)) in &rows {
+        let ks = kstr(key);
+        let row = t.get(&ks).ok_or_else(|| format!("big case: foreign key {}", ascii(&ks)))?;
+        ensure!(*cnt as usize == row.obs.len().min(65535), "big case: count of {}", ascii(&ks));
+        ensure!(masks_agree(&ks, stranded, row.mask, e.val), "big case: extensions of {}", ascii(&ks));
+    }
+    ensure!(all.len() == t.len(), "big case: all_kmers has {} entries, model {}", all.len(), t.len());
+    for (a, b) in all.iter().zip(t.keys()) {
+        ensure!(kstr(a) == *b, "big case: all_kmers order");
+    }
+    c.count("big_cases", 1);
+    c.count("big_case_windows", windows);
+    c.nontrivial(H::new().u(windows).u(thr as u64).get());
+    Ok(())
+}
+
 pub const RULE_C05: &str = "case = hostile read set (as for the graph properties, plus runs of >20 equal k-mers) as whole reads with arbitrary caller boundary-extension masks (style A) or as single-window pieces with true flanks and globally unique observation ids (style B) x K type x stranded x report_all_kmers x spy threshold; each case is run once per chosen pass count (hook: bytes-per-unit override) plus CountFilter/CountFilterSet for 7 thresholds; distinct = hash of (K, stranded, sequences, masks); non-trivial = a repeated k-mer exists AND a run with >= 2 passes happened";
 
 pub fn run_c05(ctx: &Ctx) {
@@ -523,6 +567,9 @@ pub fn run_c05(ctx: &Ctx) {
         };
         with_graph_k!(fc.kidx, K => c05_case::<K>(c, &fc, &targets))
     });
+    if thorough && !ctx.is_miri() {
+        ctx.run_group_t("big", ctx.n(1, 4), false, 4, |c| c05_big(c));
+    }
     if !ctx.is_miri() {
         ctx.run_group("saturation", ctx.n(2, 6), false, |c| c05_saturation(c));
         let (cases, passes) = if thorough { (3, 3) } else { (1, 2) };
